@@ -419,3 +419,32 @@ func (p *Prog) FuncDecl(fn *ssa.Function) (*ast.FuncDecl, *packages.Package) {
 	}
 	return nil, nil
 }
+
+// VarInit returns the initialiser expression of a package-level variable of a
+// repo package (nil if it has none or is not found).
+func (p *Prog) VarInit(obj types.Object) ast.Expr {
+	if obj == nil || obj.Pkg() == nil {
+		return nil
+	}
+	pk := p.Pkgs[obj.Pkg().Path()]
+	if pk == nil {
+		return nil
+	}
+	for _, f := range pk.Syntax {
+		for _, d := range f.Decls {
+			gd, ok := d.(*ast.GenDecl)
+			if !ok || gd.Tok != token.VAR {
+				continue
+			}
+			for _, sp := range gd.Specs {
+				vs := sp.(*ast.ValueSpec)
+				for i, n := range vs.Names {
+					if pk.TypesInfo.Defs[n] == obj && i < len(vs.Values) {
+						return vs.Values[i]
+					}
+				}
+			}
+		}
+	}
+	return nil
+}
